@@ -114,11 +114,19 @@ func (r *Parser) Buffer(buf []byte, maxSize int) {
 
 // New returns a Parser that extracts fields from a reader.
 func New(r io.Reader) *Parser {
-	sc := bufio.NewScanner(r)
-	sc.Split(splitFunc)
-
 	fsc := NewFieldParser("")
 	fsc.RemoveBOM(true)
+
+	sc := bufio.NewScanner(r)
+	sc.Split(func(data []byte, atEOF bool) (int, []byte, error) {
+		advance, token, err := splitFunc(data, atEOF)
+		if len(token) < advance {
+			// splitFunc skipped blank lines in front of the token, so the token is not the
+			// start of the stream: a BOM at its start belongs to its first line and is kept.
+			fsc.RemoveBOM(false)
+		}
+		return advance, token, err
+	})
 
 	return &Parser{inputScanner: sc, fieldScanner: fsc}
 }
